@@ -218,6 +218,10 @@ def _lookup(doc, names):
     return cur
 
 
+def _default_fn():
+    return "called"
+
+
 def final_doc(sc):
     """the document after the history (used by the generators to keep aiming at what exists)"""
     box = {}
@@ -290,9 +294,29 @@ def observe_mutate(sc, _box=None):
             elif k == "pop":
                 if op[2][0] == "none":
                     r = pop(b.steps(op[1]), doc)
+                elif op[2][0] == "fn":
+                    r = pop(b.steps(op[1]), doc, default=_default_fn)    # a callable default is a value like any other
+                    r = "<fn>" if r is _default_fn else r
                 else:
                     r = pop(b.steps(op[1]), doc, default=val(op[2][1]))
                 fin("ok", [], r)
+            elif k == "mpop":
+                # pop / pop_match with a Match as data source (the target may climb above it)
+                ms = list(itertools.islice(find_matches(b.steps(op[1]), doc), op[2] + 1))
+                if len(ms) <= op[2]:
+                    fin("nosrc", [], None, False)
+                elif op[4] == "match":
+                    m = pop_match(b.steps(op[3]), ms[op[2]], must_match=op[5])
+                    if m is None:
+                        fin("none", [], None, False)
+                    else:
+                        fin("match", [m.path_as_str, m.data_name], m.data)
+                else:
+                    if op[5]:
+                        r = pop(b.steps(op[3]), ms[op[2]])
+                    else:
+                        r = pop(b.steps(op[3]), ms[op[2]], default="dflt")
+                    fin("ok", [], r)
             elif k == "pop_match":
                 m = pop_match(b.steps(op[1]), doc, must_match=op[2])
                 if m is None:
